@@ -1,5 +1,5 @@
 """C20 KNX/IP frame parsing terminates and fails only with declared errors (mode F + oracle under timer/memory cap)."""
-from xknx.knxip import KNXIPFrame, KNXIPHeader
+from xknx.knxip import KNXIPFrame
 from xknx.knxip import knxip_enum as E
 from xknx.knxip.error_code import ErrorCode
 
@@ -109,7 +109,7 @@ def generate(rng, tier):
     for n in range(1, 6):
         yield op(bytes.fromhex("061005300006")[:n], src="hdr")
     # --- well-formed frames of every class, every truncation, mutations ------
-    reps = 6 if quick else 40
+    reps = 6 if quick else 150
     for cls in L.BODY_CLASSES:
         for i in range(reps):
             spec = L.gen_spec(rng, cls)
@@ -124,7 +124,7 @@ def generate(rng, tier):
                 yield op(mutate(rng, d), src="mut", cls=cls)
     # --- per service type: random and structure-shaped bodies ----------------
     for st in all_service_codes():
-        for _ in range(12 if quick else 120):
+        for _ in range(12 if quick else 500):
             n = rng.choice([0, 1, 2, 3, 4, 5, 6, 7, 8, 9, 10, 18, 30, 34, 40, 50, rng.randrange(70)])
             body = bytearray(rng.randrange(256) for _ in range(n))
             if n and rng.random() < 0.7:
@@ -133,7 +133,7 @@ def generate(rng, tier):
                 body[1] = rng.choice([0, 1, 2, 3, 4] + [m.value for m in ErrorCode])
             yield op(frame_with_body(st, bytes(body)), src="rand-body")
     # --- DIB / SRP lists -----------------------------------------------------
-    for _ in range(400 if quick else 6000):
+    for _ in range(400 if quick else 40000):
         kind = rng.choice(["desc", "search", "searchx", "srp"])
         if kind == "srp":
             body = HPAI_OK + b"".join(srp_like(rng) for _ in range(rng.choice([0, 1, 1, 2, 3])))
@@ -156,7 +156,7 @@ def generate(rng, tier):
         yield op(frame_with_body(0x0204, bytes([4, 2, 2, 1]) * n), src="big")
         yield op(frame_with_body(0x0530, bytes(range(256)) * (n // 64)), src="big")
     # --- fully random --------------------------------------------------------
-    for _ in range(600 if quick else 20000):
+    for _ in range(600 if quick else 120000):
         n = rng.choice([0, 1, 5, 6, 7, 8, 10, 14, 20, rng.randrange(48)])
         d = bytearray(rng.randrange(256) for _ in range(n))
         r = rng.random()
